@@ -6,6 +6,7 @@ package main
 
 import (
 	"context"
+	"encoding/json"
 	"fmt"
 	"os"
 	"sort"
@@ -42,18 +43,29 @@ var sidxBatches = map[string][]selem{
 
 var sidxBatchOrder = []string{"S0", "S1", "S2", "S3", "S4", "S5"}
 
+// every batch is written with a timestamp range (ConvertToMemPart's optional min/max, stored in the part's manifest and
+// used by queries with MinTimestamp/MaxTimestamp to prune parts): S1, S4 and S5 are nested inside S0's range, S2
+// overlaps it, S3 is disjoint.
+var sidxRanges = map[string][2]int64{
+	"S0": {0, 100}, "S1": {40, 60}, "S2": {50, 150}, "S3": {200, 300}, "S4": {45, 55}, "S5": {10, 20},
+}
+
 func (e selem) String() string { return fmt.Sprintf("%d,%d,%s", e.s, e.key, e.data) }
 
 type spart struct {
 	id   uint64
 	mem  bool
 	rows []string // sorted
+	minT int64
+	maxT int64
 }
 
 type spending struct {
 	inputs []uint64
 	outID  uint64
 	rows   []string
+	minT   int64
+	maxT   int64
 }
 
 type sidxModel struct {
@@ -65,6 +77,7 @@ type sidxModel struct {
 	pMem    *spending
 	pMerge  *spending
 	acked   []string
+	ackedR  map[string][2]int64 // element -> timestamp range of the batch that wrote it
 }
 
 func (m *sidxModel) find(id uint64) int {
@@ -85,13 +98,20 @@ func (m *sidxModel) ids(mem bool) (out []uint64) {
 	return
 }
 
-func (m *sidxModel) union(ids []uint64) []string {
-	var rows []string
-	for _, id := range ids {
-		rows = append(rows, m.parts[m.find(id)].rows...)
+func (m *sidxModel) union(ids []uint64, outID uint64) *spending {
+	pm := &spending{inputs: ids, outID: outID}
+	for i, id := range ids {
+		p := m.parts[m.find(id)]
+		pm.rows = append(pm.rows, p.rows...)
+		if i == 0 || p.minT < pm.minT {
+			pm.minT = p.minT
+		}
+		if i == 0 || p.maxT > pm.maxT {
+			pm.maxT = p.maxT
+		}
 	}
-	sort.Strings(rows)
-	return rows
+	sort.Strings(pm.rows)
+	return pm
 }
 
 func (m *sidxModel) remove(ids []uint64) {
@@ -118,10 +138,15 @@ func (m *sidxModel) step(op string) bool {
 			}
 		}
 		m.nextID++
-		p := &spart{id: m.nextID, mem: true}
+		rg := sidxRanges[name]
+		p := &spart{id: m.nextID, mem: true, minT: rg[0], maxT: rg[1]}
+		if m.ackedR == nil {
+			m.ackedR = map[string][2]int64{}
+		}
 		for _, e := range sidxBatches[name] {
 			p.rows = append(p.rows, e.String())
 			m.acked = append(m.acked, e.String())
+			m.ackedR[e.String()] = rg
 		}
 		sort.Strings(p.rows)
 		m.parts = append(m.parts, p)
@@ -148,13 +173,13 @@ func (m *sidxModel) step(op string) bool {
 		}
 		in := m.ids(true)
 		m.nextID++
-		m.pMem = &spending{inputs: in, outID: m.nextID, rows: m.union(in)}
+		m.pMem = m.union(in, m.nextID)
 	case op == "xB":
 		if m.pMem == nil {
 			return false
 		}
 		m.remove(m.pMem.inputs)
-		m.parts = append(m.parts, &spart{id: m.pMem.outID, rows: m.pMem.rows})
+		m.parts = append(m.parts, &spart{id: m.pMem.outID, rows: m.pMem.rows, minT: m.pMem.minT, maxT: m.pMem.maxT})
 		m.pMem = nil
 	case strings.HasPrefix(op, "mA:"):
 		if m.pMerge != nil {
@@ -172,13 +197,13 @@ func (m *sidxModel) step(op string) bool {
 			return false
 		}
 		m.nextID++
-		m.pMerge = &spending{inputs: in, outID: m.nextID, rows: m.union(in)}
+		m.pMerge = m.union(in, m.nextID)
 	case op == "mB":
 		if m.pMerge == nil {
 			return false
 		}
 		m.remove(m.pMerge.inputs)
-		m.parts = append(m.parts, &spart{id: m.pMerge.outID, rows: m.pMerge.rows})
+		m.parts = append(m.parts, &spart{id: m.pMerge.outID, rows: m.pMerge.rows, minT: m.pMerge.minT, maxT: m.pMerge.maxT})
 		m.pMerge = nil
 	default:
 		panic("unknown op " + op)
@@ -212,7 +237,8 @@ func (r *sidxReal) apply(op string, m *sidxModel) {
 			reqs = append(reqs, sidx.WriteRequest{SeriesID: common.SeriesID(e.s), Key: e.key, Data: []byte(e.data),
 				Tags: []sidx.Tag{{Name: "t", Value: []byte("t" + e.data), ValueType: pbv1.ValueTypeStr}}})
 		}
-		mp, err := r.s.ConvertToMemPart(reqs, 1, nil, nil)
+		rg := sidxRanges[op[2:]]
+		mp, err := r.s.ConvertToMemPart(reqs, 1, &rg[0], &rg[1])
 		if err != nil {
 			panic(err)
 		}
@@ -275,6 +301,8 @@ type sidxQuery struct {
 	sids   []uint64
 	minKey *int64
 	maxKey *int64
+	minTS  *int64 // with maxTS: parts whose timestamp range does not overlap are pruned (part-level only, no row filter)
+	maxTS  *int64
 	desc   bool
 }
 
@@ -287,6 +315,10 @@ var sidxQueries = []sidxQuery{
 	{name: "series2", sids: []uint64{2}},
 	{name: "key20", sids: []uint64{1, 2}, minKey: i64(20), maxKey: i64(20)},
 	{name: "key10-20", sids: []uint64{1, 2}, minKey: i64(10), maxKey: i64(20)},
+	{name: "ts0-5", sids: []uint64{1, 2}, minTS: i64(0), maxTS: i64(5)},
+	{name: "ts80-90", sids: []uint64{1, 2}, minTS: i64(80), maxTS: i64(90)},
+	{name: "ts120-130", sids: []uint64{1, 2}, minTS: i64(120), maxTS: i64(130)},
+	{name: "ts250-260", sids: []uint64{1, 2}, minTS: i64(250), maxTS: i64(260)},
 }
 
 func flattenSidx(resp []*sidx.QueryResponse) (rows []string, byPart map[uint64][]string, keys []int64, err error) {
@@ -398,10 +430,37 @@ func executeSidx(dir string, h []string) (res sidxResult) {
 	for id, rows := range byPart {
 		res.viol = append(res.viol, viol{Key: fmt.Sprintf("sidx: snapshot after %s: holds a part the reference does not have", last), Detail: map[string]any{"part": id, "rows": rows}})
 	}
+	// ---- stored timestamp range of every file part == hull of the ranges of the batches merged into it
+	cur = "manifest"
+	fileIDs := map[uint64]struct{}{}
+	for _, p := range m.parts {
+		if !p.mem {
+			fileIDs[p.id] = struct{}{}
+		}
+	}
+	for id, path := range s.PartPaths(fileIDs) {
+		b, rerr := os.ReadFile(path + "/manifest.json")
+		if rerr != nil {
+			res.viol = append(res.viol, viol{Key: fmt.Sprintf("sidx: part in snapshot after %s: manifest unreadable", last), Detail: rerr.Error()})
+			continue
+		}
+		var mf struct {
+			Min *int64 `json:"minTimestamp"`
+			Max *int64 `json:"maxTimestamp"`
+		}
+		if jerr := json.Unmarshal(b, &mf); jerr != nil {
+			panic(jerr)
+		}
+		p := m.parts[m.find(id)]
+		if mf.Min == nil || mf.Max == nil || *mf.Min != p.minT || *mf.Max != p.maxT {
+			res.viol = append(res.viol, viol{Key: fmt.Sprintf("sidx: part in snapshot after %s: stored timestamp range differs from the hull of its inputs' ranges", last),
+				Detail: map[string]any{"part": id, "manifest": string(b), "want": []int64{p.minT, p.maxT}}})
+		}
+	}
 	// ---- queries
 	for _, q := range sidxQueries {
 		cur = "query " + q.name
-		req := sidx.QueryRequest{MinKey: q.minKey, MaxKey: q.maxKey, TagProjection: proj}
+		req := sidx.QueryRequest{MinKey: q.minKey, MaxKey: q.maxKey, MinTimestamp: q.minTS, MaxTimestamp: q.maxTS, TagProjection: proj}
 		for _, sid := range q.sids {
 			req.SeriesIDs = append(req.SeriesIDs, common.SeriesID(sid))
 		}
@@ -425,7 +484,7 @@ func executeSidx(dir string, h []string) (res sidxResult) {
 				break
 			}
 		}
-		var want []string
+		var want, must []string
 		for _, r := range m.acked {
 			f := strings.Split(r, ",")
 			sid, _ := strconv.ParseUint(f[0], 10, 64)
@@ -436,6 +495,9 @@ func executeSidx(dir string, h []string) (res sidxResult) {
 			}
 			if ok && (q.minKey == nil || k >= *q.minKey) && (q.maxKey == nil || k <= *q.maxKey) {
 				want = append(want, r)
+				if rg := m.ackedR[r]; q.minTS != nil && rg[0] <= *q.maxTS && rg[1] >= *q.minTS {
+					must = append(must, r)
+				}
 			}
 		}
 		// QuerySync does not fill QueryResponse.Tags (copyTo requires a pre-sized map), so tags are compared through
@@ -449,6 +511,39 @@ func executeSidx(dir string, h []string) (res sidxResult) {
 			got[i] = r
 		}
 		sort.Strings(got)
+		if q.minTS != nil {
+			// A timestamp-bounded query prunes whole parts by their stored range, it does not filter rows: every element whose
+			// own batch range overlaps the bounds must be returned (any part that holds it has a range covering the batch's),
+			// nothing but written elements may be returned; which other elements come along depends on the part layout.
+			gotSet, wantSet := map[string]int{}, map[string]int{}
+			for _, g := range got {
+				gotSet[g]++
+			}
+			for _, w := range want {
+				wantSet[w]++
+			}
+			var missing, extra []string
+			for _, r := range must {
+				if gotSet[r] == 0 {
+					missing = append(missing, r)
+				}
+			}
+			for g, n := range gotSet {
+				if n > wantSet[g] {
+					extra = append(extra, g)
+				}
+			}
+			sort.Strings(missing)
+			sort.Strings(extra)
+			if len(missing) > 0 {
+				res.viol = append(res.viol, viol{Key: fmt.Sprintf("sidx: query %s after %s: elements of a part whose timestamp range overlaps the query bounds are missing", q.name, last),
+					Detail: map[string]any{"missing": missing, "got": got}})
+			}
+			if len(extra) > 0 {
+				res.viol = append(res.viol, viol{Key: fmt.Sprintf("sidx: query %s after %s: elements duplicated or unexpected", q.name, last), Detail: map[string]any{"extra": extra, "got": got}})
+			}
+			continue
+		}
 		if strings.Join(got, ";") != strings.Join(want, ";") {
 			cls := "wrong elements"
 			if len(got) < len(want) {
@@ -475,7 +570,7 @@ func executeSidx(dir string, h []string) (res sidxResult) {
 		rank[id] = len(rank)
 	}
 	for _, p := range m.parts {
-		fmt.Fprintf(&sb, "part %d mem=%v %s\n", rank[p.id], p.mem, strings.Join(p.rows, ";"))
+		fmt.Fprintf(&sb, "part %d mem=%v [%d,%d] %s\n", rank[p.id], p.mem, p.minT, p.maxT, strings.Join(p.rows, ";"))
 	}
 	rk := func(x []uint64) []int {
 		o := make([]int, len(x))
